@@ -336,7 +336,35 @@ def once_oracle(case, lines):
                     kind = "duplicate-item" if it in emitted else "invented-item"
                     return {"kind": kind, "event": k,
                             "detail": f"{it} delivered {delivered[it]} time(s), emitted {emitted.get(it, 0)} time(s) ({lines.get(k)})"}
+    if case.meta.get("kind") == "coop-mover-pair" or (case.field("pyield") and not has_unsub(case)
+                                                       and not any("c" in str(e) or "'e'" in str(e) for e in case.events)):
+        # nobody unsubscribed, the source did not terminate, every task has been run after a long quiet period
+        lost = [it for it, n in emitted.items() if delivered.get(it, 0) < n]
+        if lost and chain_heads(case.field("pipe")[0]) and set(chain_heads(case.field("pipe")[0])) <= {"delay", "observeon"}:
+            return {"kind": "lost-item", "event": len(case.events) - 1,
+                    "detail": f"emitted {emitted}, delivered {delivered}: {lost} never arrived"}
     return None
+
+
+def mover_pair_cases(tier):
+    """delay / observe_on: TWO deliveries of one subscription on two executor threads (the pool has more than one worker),
+    the subscriber's callback being a yield point (`pyield`): while one worker is inside the downstream call the other
+    polls the next task.  No unsubscription, no terminal: every item must arrive, once (seed C07-10 took the observer out
+    of the shared cell for the duration of the call: the second delivery found the cell empty)."""
+    out = []
+    for opv, d in ((["delay", "0"], 0), (["delay", "2"], 2), (["observeon"], 0)):
+        pipe = opv + [["hot", "0"]]
+        D = str(max(d, 1))
+        arm = [["poll", "0"], ["poll", "1"], ["adv", D], ["fire", "0"], ["fire", "0"]] if opv[0] == "delay" else []
+        for third in ([], [E(3)]):
+            for a, b in ((["poll", "0"], ["poll", "1"]), (["poll", "1"], ["poll", "0"]), (["poll", "0"], ["run"]),
+                         (["run"], ["poll", "0"])):
+                for k in range(0, 9):
+                    evs = [E(1), E(2)] + arm + third + [["par", str(k), a, b]] + TAIL_RATE
+                    c = mk(pipe, evs, "coop-mover-pair")
+                    c.fields = [("pyield", ["1"])] + c.fields
+                    out.append(c)
+    return out
 
 
 def mover_cases(tier, seed):
